@@ -126,7 +126,7 @@ def check(events, candles, warm, fast, aborted=False, want=('c02',)):
             rows = norm[sym][i0:i0 + ev['n']]
             cands = [x for x in book.active(sym) if rows[:, 4].min() <= x['price'] <= rows[:, 3].max()]
             chunk[sym] = {'i0': i0, 'n': ev['n'], 'rows': rows, 'seq': ev['seq'], 'ts0': ts0,
-                          'cands0': len(cands), 'fills': 0}
+                          'cands0': len(cands), 'fills': 0, 'cur': 0, 'pi': 0.0}
             continue
         if k == 'exec_ret':
             call = pending_call.pop(ev['o'], None)
@@ -208,6 +208,29 @@ def check(events, candles, warm, fast, aborted=False, want=('c02',)):
                     c('fills_inside_gap')
                 if p in (row[1], row[2], row[3], row[4]):
                     c('fills_at_candle_extreme_or_open_close')
+                # ---- the same polyline oracle as in the normal simulator, minute by minute inside the chunk ----
+                for mm in range(ch['cur'], j):
+                    _fast_minute_end(ch, mm, ch['pi'] if mm == ch['cur'] else 0.0, call['seq'], book, sym, v, c)
+                if j != ch['cur']:
+                    ch['cur'], ch['pi'] = j, 0.0
+                path = polyline(row[1], row[2], row[3], row[4])
+                tpos = first_occ(path, p, ch['pi'])
+                if tpos is None:
+                    if row[4] <= p <= row[3]:
+                        v('fast_fill_behind_path_position',
+                          f'order {p} filled in minute {j} of chunk {ch["ts0"]} (candle {row.tolist()}) but the path position '
+                          f'was {ch["pi"]:.4f} (path {path})', order=o)
+                else:
+                    for other in book.active(sym):
+                        if other['o'] == o['o'] or other['seq'] > call['seq']:
+                            continue
+                        t2 = first_occ(path, other['price'], ch['pi'])
+                        if t2 is not None and t2 < tpos:
+                            v('fast_path_order_violated',
+                              f'order at {p} (path position {tpos:.4f}) filled before active order at {other["price"]} '
+                              f'(position {t2:.4f}) in minute {j} of chunk {ch["ts0"]} candle {row.tolist()}', first=o, skipped=other)
+                            break
+                    ch['pi'] = tpos
                 # first touch: no earlier minute of this chunk (from the order's first eligible minute) contains p
                 j0 = 0
                 if o['seq'] > ch['seq']:
@@ -243,6 +266,8 @@ def check(events, candles, warm, fast, aborted=False, want=('c02',)):
                 ch = chunk.pop(sym)
                 c('chunk_end_evals')
                 rows = ch['rows']
+                for mm in range(ch['cur'], ch['n']):
+                    _fast_minute_end(ch, mm, ch['pi'] if mm == ch['cur'] else 0.0, ev['seq'], book, sym, v, c)
                 for o in book.active(sym):
                     p = o['price']
                     if o['seq'] < ch['seq']:
@@ -275,6 +300,22 @@ def check(events, candles, warm, fast, aborted=False, want=('c02',)):
             if book.o[o]['status'] == 'ACTIVE':
                 v('market_order_never_executed', f"MARKET order {book.o[o]} was still queued when the session ended")
     return viol, cnt
+
+
+def _fast_minute_end(ch, mm, pi, upto_seq, book, sym, v, c):
+    """end of minute `mm` of a fast-mode chunk: no order that existed during that minute may still be ACTIVE if the rest of
+    the minute's path (from position pi) reaches its price"""
+    row = ch['rows'][mm]
+    path = polyline(row[1], row[2], row[3], row[4])
+    t_end = ch['ts0'] + (mm + 1) * 60000
+    c('fast_minute_end_evals')
+    for o in book.active(sym):
+        if o['seq'] >= upto_seq or o['t'] > t_end:
+            continue
+        if first_occ(path, o['price'], pi) is not None:
+            v('fast_left_unfilled_in_minute',
+              f"order {o['type']} {o['side']} {o['price']} still ACTIVE after minute {mm} of chunk {ch['ts0']} whose remaining "
+              f"path (from {pi:.4f} of {path}) reaches it", order=o, chunk_ts0=ch['ts0'], minute=mm)
 
 
 def _market_deadline(market_open, sym, ts, v, book):
